@@ -1,2 +1,40 @@
-(* C10 - theorems follow in this commit series *)
-From TW Require Import Bytes.
+(* C10 - string literals are HTML-escaped on output; raw() is the exact opt-out. *)
+From Coq Require Import String.
+From TW Require Import Bytes Values Builtins Expr Escape.
+Open Scope N_scope.
+
+(* what the evaluator stores for a literal is the specification escaper's output *)
+Theorem C10_model_escapes_like_spec s : eval_string_lit s = esc_spec s.
+Proof. exact (eval_string_lit_is_esc_spec s). Qed.
+Print Assumptions C10_model_escapes_like_spec.
+
+Theorem C10_no_raw_angle_brackets s x : In x (esc_spec s) -> x <> 60 /\ x <> 62.
+Proof. exact (esc_no_angle s x). Qed.
+Print Assumptions C10_no_raw_angle_brackets.
+
+Theorem C10_every_amp_is_an_entity s : amp_ok (esc_spec s) = true.
+Proof. exact (esc_amp_entities s). Qed.
+Print Assumptions C10_every_amp_is_an_entity.
+
+Theorem C10_quotes_stay s : filter is_quote (esc_spec s) = filter is_quote s.
+Proof. exact (esc_quotes_kept s). Qed.
+Print Assumptions C10_quotes_stay.
+
+Theorem C10_unescape_gives_back_literal s : unescape (esc_spec s) = Some s.
+Proof. exact (unescape_esc s). Qed.
+Print Assumptions C10_unescape_gives_back_literal.
+
+(* raw() on the stored literal yields exactly the original text *)
+Theorem C10_raw_is_exact_opt_out s :
+  call_builtin (bs "raw") (VStr (eval_string_lit s)) [] = Some (BOk (VStr s)).
+Proof.
+  rewrite eval_string_lit_is_esc_spec.
+  change (call_builtin (bs "raw") (VStr (esc_spec s)) [])
+    with (Some (match unescape (esc_spec s) with Some t => BOk (VStr t) | None => BUnmodelled end)).
+  rewrite unescape_esc. reflexivity.
+Qed.
+Print Assumptions C10_raw_is_exact_opt_out.
+
+(* non-vacuity *)
+Example C10_example : esc_spec (bs "<a href='x'>&amp;</a>") = bs "&lt;a href='x'&gt;&amp;amp;&lt;/a&gt;".
+Proof. reflexivity. Qed.
